@@ -22,4 +22,7 @@ func init() {
 	setProp("C19", "DESIGN.md §4 C19",
 		"Decides: dimensional homogeneity in the earth radius of all 18 Forward/Reverse bodies (so inversion for R=1 implies inversion for every R), the zero guard of the removable singularity at the projection centre, and atan2-based longitude recovery for projections with a settable centre.",
 		"that the formulas are the right projection, their equal-area/conformal/equidistant character (needs calculus on the formulas, another technique family), numeric accuracy of the inverse.")
+	setProp("C03", "DESIGN.md §4 C03",
+		"Decides: vertex probes against other rings treat 'on the boundary' as inconclusive (three-valued consumption), so the nested/inside verdicts cannot depend on a ring's start vertex.",
+		"completeness of the rule set with respect to the OGC validity definition; correctness of the segment-intersection and simplicity algorithms.")
 }
